@@ -186,8 +186,8 @@ fn far(ch: &mut Choices, case: &mut Case) -> Result<(), String> {
 
 /// Rare recurrences: exact comparison with a forward scan of 48 years.
 fn rare(ch: &mut Choices, case: &mut Case) -> Result<(), String> {
-    let text = crate::gen::expr::gen_rare_expr(ch);
     let year = ch.pick(&[2089, 2094, 2096, 2099, 2189, 2395, 1895, 1899, 9889, 9960, 2019, 2000]) + ch.int(0, 6) as i32;
+    let text = crate::gen::expr::gen_rare_expr(ch, year);
     let holidays = crate::gen::ctx::gen_holidays(ch, year.clamp(1901, 9980) + 2);
     let oh = OpeningHours::parse(&text)
         .map_err(|e| format!("constructed sentence `{text}` rejected: {e}"))?
